@@ -91,7 +91,25 @@ SignedVecs ==
     << 7, 11 >>))
   \o SignedSession(SignedShape("ReadEncryptedLeaseSet", EncELS(11, T4s, << 2, 88 >>, 0, << >>, 100, Fill(100, 2), 11, 5), 11, 0), "signed/els/11")
   \o SignedSession(SignedShape("ReadEncryptedLeaseSet", EncELS(11, T4s, << 2, 88 >>, 1, EncOffline(T4s, 7, 11, 4), 100, Fill(100, 2), 7, 5), 11, 0), "signed/elsoff/11")
-Vecs == SignedVecs \o IdentVecs \o CertVecs \o SigVecs \o OffVecs \o LeaseVecs \o SetVecs
+(* Extension family X05: the same overwrite histories for what the property's list leaves out - options mappings, router addresses,   *)
+(* RouterInfo, and LeaseSet2 / MetaLeaseSet / RouterInfo WITH options whose Verify() is observed.  Every op carries ext = TRUE, which   *)
+(* makes Trace.tla judge the observations under X05 instead of C08.                                                                   *)
+OptsX == << << << 97 >>, << 98 >> >>, << << 99, 97, 112, 115 >>, << 102, 82 >> >> >>
+AddrX == EncRouterAddress(5, Zeros(8), << 78, 84, 67, 80, 50 >>, << << << 104, 111, 115, 116 >>, << 49, 46, 50, 46, 51, 46, 52 >> >>, << << 112, 111, 114, 116 >>, << 56, 48 >> >> >>)
+RIX == EncRouterInfo(EncIdentity("key", 7, 4, 2), 7, Zeros(8), << AddrX, AddrX >>, 0, OptsX, 5)
+ExtOf(v) == [ops |-> SeqMap(LAMBDA o : o @@ [ext |-> TRUE], v.ops)]
+ExtVecs ==
+  SeqMap(ExtOf,
+    All("ReadMapping", SerMapping(OptsX) \o << 9 >>, << >>, "mapping", Chunks(SerMapping(OptsX), 4))
+    \o All("NewMapping", SerMapping(OptsX), << >>, "mapping", Chunks(SerMapping(OptsX), 4))
+    \o All("ReadRouterAddress", AddrX \o << 9 >>, << >>, "raddr", Chunks(AddrX, 6))
+    \o All("ReadRouterInfo", RIX, << >>, "rinfo", Chunks(RIX, 8))
+    \o All("ReadLeaseSet2", LS2W(<< 7, 4 >>, FALSE), << >>, "ls2", Chunks(LS2W(<< 7, 4 >>, FALSE), 8))
+    \o SignedSession(SignedShape("ReadLeaseSet2", EncLS2(EncIdentity("key", 7, 4, 2), T4s, << 2, 88 >>, 0, << >>, OptsX, 1, << EncEncKey(4, 32, Fill(32, 1)) >>, 1, << EncLease2(1, T4s, T4s) >>, 7, 5), 7, 0), "signed/ls2opts")
+    \o SignedSession(SignedShape("ReadMetaLeaseSet", EncMeta(EncIdentity("key", 7, 4, 2), T4s, << 2, 88 >>, 0, << >>, OptsX, 1, << EncMetaEntry(1, 3, T4s, 1, OptsX) >>, 7, 5), 7, 0), "signed/metaopts")
+    \o SignedSession(SignedShape("ReadRouterInfo", RIX, 7, 0), "signed/rinfo"))
+CONSTANT Part       \* "listed" | "ext"
+Vecs == IF Part = "ext" THEN ExtVecs ELSE SignedVecs \o IdentVecs \o CertVecs \o SigVecs \o OffVecs \o LeaseVecs \o SetVecs
 VARIABLE done
 Init == done = FALSE
 Next == ~done /\ ndJsonSerialize(OutFile, Vecs) /\ PrintT(<< "GENERATED", Len(Vecs) >>) /\ done' = TRUE
